@@ -3,6 +3,7 @@
 pub mod c01;
 pub mod c02;
 pub mod c03;
+pub mod c04;
 pub mod c05;
 pub mod c06;
 pub mod c10;
@@ -12,7 +13,7 @@ pub mod c19;
 
 use crate::engine::Cfg;
 
-pub const SCENARIOS: &[&str] = &["c01", "c02a", "c02b", "c03", "c05", "c06mpsc", "c06spsc", "c06mpmc", "c10s", "c10f", "c11c", "c11b", "c11w", "c12", "c19v1", "c19plain"];
+pub const SCENARIOS: &[&str] = &["c01", "c02a", "c02b", "c03", "c04a", "c04b", "c05", "c06mpsc", "c06spsc", "c06mpmc", "c10s", "c10f", "c11c", "c11b", "c11w", "c12", "c19v1", "c19plain"];
 
 pub fn run(name: &str, seed: u64, ov: impl FnMut(&mut Cfg)) -> ! {
     match name {
@@ -20,6 +21,8 @@ pub fn run(name: &str, seed: u64, ov: impl FnMut(&mut Cfg)) -> ! {
         "c02a" => c02::run_a(seed, ov),
         "c02b" => c02::run_b(seed, ov),
         "c03" => c03::run(seed, ov),
+        "c04a" => c04::run_a(seed, ov),
+        "c04b" => c04::run_b(seed, ov),
         "c05" => c05::run(seed, ov),
         "c06mpsc" => c06::run(seed, Some(c06::Flavor::Mpsc), ov),
         "c06spsc" => c06::run(seed, Some(c06::Flavor::Spsc), ov),
